@@ -8,7 +8,8 @@ from scenario import simple_cert
 NEEDS = ["acmed"]
 LABELS = ["C10_Order", "C10_ByType", "C10_OneAtATime", "C10_AbortUnlessAllowed", "C10_Env", "C10_Vars", "C10_FileBracket", "C10_StdinStdout"]
 PROFILES = [["challenge-http-01"], ["challenge-http-01", "challenge-http-01-clean"], ["post-operation"],
-            ["file-pre-create", "file-pre-edit", "file-post-create", "file-post-edit"], ["challenge-http-01-clean", "post-operation"]]
+            ["file-pre-create", "file-pre-edit", "file-post-create", "file-post-edit"], ["challenge-http-01-clean", "post-operation"],
+            ["file-post-create", "file-post-edit", "challenge-http-01", "post-operation"], ["file-pre-create", "file-pre-edit", "challenge-http-01-clean"]]
 SHAPES = [["h1", "h2", "h3"], ["h3", "g1"], ["g1", "h3", "h1"], ["g2", "g1"], ["h2", "g2", "h2"], ["g1"]]
 GROUPS = [{"name": "g1", "hooks": ["h1", "g2"]}, {"name": "g2", "hooks": ["h2", "h1"]}]
 KEBAB = {"FilePreCreate": "file-pre-create", "FilePostCreate": "file-post-create", "FilePreEdit": "file-pre-edit", "FilePostEdit": "file-post-edit",
@@ -172,7 +173,7 @@ def run(ctx):
            "samples": [results[0]["meta"]["rc"], results[-1]["meta"]["rc"]], "configurations_in_model": len(confs),
            "configurations_run": len(results), "hook_calls_judged": calls, "hook_runs_judged": ends, "failing_hook_runs": aborted,
            "env_patterns_per_hook_run": len(PATTERNS), "exhaustive": False,
-           "rule": "TLC enumerates hook lists (3 hooks x 5 type profiles x allow_failure x exit code, 2 nested groups, 6 list shapes = 48000 configurations) and checks the "
+           "rule": "TLC enumerates hook lists (3 hooks x 7 type profiles (two of them mixing file and certificate event types) x allow_failure x exit code, 2 nested groups, 6 list shapes = 131712 configurations) and checks the "
                    "call semantics on each; a seeded sample (quick 150, thorough 2500) becomes real configurations with the recorder as command; two attempts each "
                    "(first issuance + renewal: create and edit brackets); 16 environment variables per run cover every presence pattern over process/global/"
                    "certificate/identifier levels"}
